@@ -371,3 +371,7 @@ func verif_C04_segmentation() {
 	verifAssert(same(ref, got), "C04.segmentation-does-not-change-the-conversation")
 	verifReach("C04.segmentation-end")
 }
+
+// verif_C04_conn_isolation: "never the outcome of an earlier transaction",
+// across connections (see verifConnIsolation in zz_verif_c08.go).
+func verif_C04_conn_isolation() { verifConnIsolation("C04") }
